@@ -69,6 +69,20 @@ class Lifecycle(ThreadedMixin, Scenario):
                     self.log.append(("poll", "src", self.loop.time(), i, self.ref_started))
                     yield i
             self.source = Stream.from_iterable(gen(), loop=self.ioloop, asynchronous=True, start=bool(p.get("autostart")))
+        elif kind == "from_q":
+            import queue
+            import streamz.sources as ss
+            scen = self
+
+            class Q(queue.Queue):
+                def get_nowait(self_inner):
+                    item = queue.Queue.get_nowait(self_inner)        # raises Empty when there is nothing: not a poll
+                    scen.log.append(("poll", "src", scen.loop.time(), item, scen.ref_started))
+                    return item
+            q = Q()
+            for i in range(p["n"]):
+                q.put(i)
+            self.source = ss.from_q(q, sleep_time=POLL, loop=self.ioloop, asynchronous=True)
         elif kind == "from_textfile":
             self.file = io.StringIO("".join("r%d\n" % i for i in range(p["n"])))
             scen = self
@@ -201,7 +215,7 @@ class Lifecycle(ThreadedMixin, Scenario):
                 if eff and not (crash and crash[-1] > eff[-1]):
                     if not any(i > eff[-1] for i, e in enumerate(log) if e[0] == "poll"):
                         return Violation("no-cycle-after-start", kind, "", info)
-        elif kind == "from_iterable":
+        elif kind in ("from_iterable", "from_q"):
             n = self.params["n"]
             taken = [e[3] for e in polls]
             if taken != list(range(len(taken))):
@@ -299,6 +313,8 @@ def plan(ctx):
     jobs.append((("from_iterable", "sync", 4 if T else 3, 2, 0.5, "two"), 1))
     jobs.append((("from_iterable", "future", 2, 2, 0.5, "fan"), 1))
     jobs.append((("from_periodic", "future", 2, 0, 1.5, "fan"), 1 if T else 0))
+    jobs.append((("from_q", "future", 3, 3, 1.5), 1))
+    jobs.append((("from_q", "sync", 3, 3, 1.5), 1))
     jobs.append((("from_periodic", "sync", 4, 0, 2.5, "pollfail"), 1))
     jobs.append((("from_periodic", "future", 3, 0, 2.5, "pollfail"), 1 if T else 0))
     for src, n, h in (("from_periodic", 0, 1.5), ("from_iterable", 3, 0.5), ("from_textfile", 2, 1.0)):
